@@ -13,6 +13,9 @@ export CARGO_TARGET_DIR=/var/tmp/sv-target CARGO_NET_OFFLINE=true
 [ -f "$SRC/patch.diff" ] && [ -f "$SRC/demo.rs" ] || { echo "missing patch.diff/demo.rs in $SRC"; exit 2; }
 mkdir -p "$OUT"; cp "$SRC/patch.diff" "$SRC/demo.rs" "$OUT/"; [ -f "$SRC/meta.txt" ] && cp "$SRC/meta.txt" "$OUT/agent-meta.txt"
 rm -rf "$S"; mkdir -p "$S"; rsync -a --exclude target --exclude .git --exclude out /repo/ "$S/"
+# rsync preserves mtimes and the target dir is shared between runs: make every source newer than any
+# artifact so that cargo never reuses a build of a differently patched tree
+find "$S/src" "$S/tests" "$S/examples" "$S/benches" -type f -exec touch {} + 2>/dev/null
 FEAT=$(head -1 "$SRC/demo.rs" | sed -n 's#^// *features: *##p' | tr -d ' ')
 FARG=""; [ -n "$FEAT" ] && [ "$FEAT" != "none" ] && FARG="--features $FEAT"
 cd "$S"
@@ -20,6 +23,7 @@ cp "$SRC/demo.rs" tests/seed_demo.rs
 D0=$(cargo test --offline --test seed_demo $FARG 2>&1 | grep -E "^test result" | head -1)
 rm tests/seed_demo.rs
 git apply --whitespace=nowarn "$SRC/patch.diff" 2>/dev/null || patch -p1 --no-backup-if-mismatch < "$SRC/patch.diff" >/dev/null || { echo "PATCH DOES NOT APPLY"; echo '{"status":"patch-does-not-apply"}' > "$OUT/meta.json"; exit 1; }
+find "$S/src" -type f -exec touch {} +
 T=$(cargo test --workspace --no-fail-fast --offline 2>&1)
 PASS=$(echo "$T" | grep "^test result" | sed -E 's/.* ([0-9]+) passed.*/\1/' | paste -sd+ | bc)
 FAIL=$(echo "$T" | grep "^test result" | sed -E 's/.* ([0-9]+) failed.*/\1/' | paste -sd+ | bc)
